@@ -28,13 +28,14 @@ import (
 )
 
 type c12SheetRun struct {
-	log      []string
-	after    []string
-	dups     []string        // "<entry name> after <op>"
-	deleted  map[string]bool // part names of deleted worksheets
-	streamed map[string]bool // part names of worksheets rewritten with the stream writer
-	left     int
-	status   string
+	log       []string
+	after     []string
+	dups      []string        // "<entry name> after <op>"
+	deleted   map[string]bool // part names of deleted worksheets
+	streamed  map[string]bool // part names of worksheets rewritten with the stream writer
+	streamNow map[string]bool // part names currently held in File.streams
+	left      int
+	status    string
 }
 
 func c12SheetScript(rng *Rng, n int, variant int, big bool) []string {
@@ -73,7 +74,7 @@ func c12SheetScript(rng *Rng, n int, variant int, big bool) []string {
 	return sc
 }
 
-func c12RunSheetScript(bk *c12Book, xmlL, sizeL int64, script []string) (res c12SheetRun) {
+func c12RunSheetScript(r *Run, bk *c12Book, xmlL, sizeL int64, script []string) (res c12SheetRun) {
 	base := c12TmpCount()
 	f, err := c12Open(bk.data, xmlL, sizeL)
 	if f == nil {
@@ -85,7 +86,7 @@ func c12RunSheetScript(bk *c12Book, xmlL, sizeL int64, script []string) (res c12
 		return
 	}
 	res.status = "ok"
-	res.deleted, res.streamed = map[string]bool{}, map[string]bool{}
+	res.deleted, res.streamed, res.streamNow = map[string]bool{}, map[string]bool{}, map[string]bool{}
 	names := make([]string, len(bk.sheets)) // current name of the i-th original sheet, "" = deleted
 	for i, sh := range bk.sheets {
 		names[i] = sh.name
@@ -113,6 +114,7 @@ func c12RunSheetScript(bk *c12Book, xmlL, sizeL int64, script []string) (res c12
 					if idx, _ := f.GetSheetIndex(name); idx == -1 {
 						names[a%len(names)] = ""
 						res.deleted[bk.sheets[a%len(names)].path] = true
+						delete(res.streamNow, bk.sheets[a%len(names)].path)
 					}
 				}
 			case "copy":
@@ -146,6 +148,7 @@ func c12RunSheetScript(bk *c12Book, xmlL, sizeL int64, script []string) (res c12
 					add(tok + ": err")
 					return
 				}
+				res.streamNow[bk.sheets[a%len(names)].path] = true
 				sw.SetRow("A1", []interface{}{"streamed", cnt, true})
 				sw.SetRow("A2", []interface{}{fmt.Sprintf("row two %d", cnt), 2.5})
 				sw.SetRow("A3", []interface{}{xl.Cell{Value: "styled"}, nil, "x"})
@@ -157,6 +160,7 @@ func c12RunSheetScript(bk *c12Book, xmlL, sizeL int64, script []string) (res c12
 					add(tok + ": err")
 					return
 				}
+				res.streamNow[bk.sheets[a%len(names)].path] = true
 				filler := strings.Repeat("0123456789abcdef", 128) // 2 KiB
 				for r := 1; r <= 900; r++ {
 					row := make([]interface{}, 10)
@@ -170,6 +174,7 @@ func c12RunSheetScript(bk *c12Book, xmlL, sizeL int64, script []string) (res c12
 				spill := c12TmpCount() - base
 				add(fmt.Sprintf("%s: flush err=%v stream-spilled=%v", tok, sw.Flush() != nil, spill > len(xl.VerifC12Dump(f).Temp)))
 			case "save":
+				d0 := xl.VerifC12Dump(f)
 				buf, err := f.WriteToBuffer()
 				if buf == nil || err != nil {
 					add("save: FAILED")
@@ -188,6 +193,40 @@ func c12RunSheetScript(bk *c12Book, xmlL, sizeL int64, script []string) (res c12
 					}
 				}
 				sort.Strings(zn)
+				if r != nil {
+					// transcript: the three collections writeToZip lists from (model XlModel.ZipList)
+					d1 := xl.VerifC12Dump(f)
+					var ss, ps, ts []string
+					for n := range res.streamNow {
+						ss = append(ss, n)
+					}
+					for n := range d1.Pkg {
+						_, t0 := d0.Temp[n]
+						_, p0 := d0.Pkg[n]
+						if t0 && !p0 && n != c12SST {
+							continue // promoted by the temp loop itself
+						}
+						ps = append(ps, n)
+					}
+					for n := range d1.Temp {
+						ts = append(ts, n)
+					}
+					sort.Strings(ss)
+					sort.Strings(ps)
+					sort.Strings(ts)
+					esc := func(xs []string) string {
+						var b strings.Builder
+						for _, x := range xs {
+							b.WriteString(" " + c12Esc(x))
+						}
+						return b.String()
+					}
+					var zs []string
+					for _, n := range zn {
+						zs = append(zs, c12Esc(n))
+					}
+					r.Op(fmt.Sprintf("zipnames %d%s %d%s %d%s", len(ss), esc(ss), len(ps), esc(ps), len(ts), esc(ts)), "N["+strings.Join(zs, " ")+"]")
+				}
 				obs := "REOPEN-FAILED"
 				if g, _ := c12Open(data, 0, 0); g != nil {
 					obs = c12Observe(g)
@@ -217,7 +256,7 @@ func c12SheetOracle(r *Run, bk *c12Book, xmlL, sizeL int64, script []string, ref
 	if len(script) == 0 || ref.status != "ok" {
 		return
 	}
-	got := c12RunSheetScript(bk, xmlL, sizeL, script)
+	got := c12RunSheetScript(r, bk, xmlL, sizeL, script)
 	if got.status != "ok" {
 		return
 	}
